@@ -21,6 +21,7 @@ type Profile struct {
 	HalfSecond   bool // sometimes build segments that last exactly N.5 s on whole-nanosecond boundaries
 	Codecs       []string
 	AllowDisk    bool
+	OversizedRA  bool // with SmallMax: some random access units exceed SegmentMaxSize on their own
 	MoreAudioLed bool // a third of the scripts more are audio-led
 	MultiAU      bool // with ConstantLL: AAC writes may still carry several access units
 	SegCountMax  int
@@ -193,6 +194,11 @@ func DrawScript(t *rapid.T, p Profile) Script {
 		rapid.Int64Range(-10*leadRate, 0),
 		rapid.Just(int64(0)),
 		rapid.Int64Range(0, 1<<40),
+		// just below the points where tick * 10^9 leaves 63 / 64 bits, and below 2^32 ticks: the
+		// stream crosses them after a few seconds
+		rapid.Map(rapid.Int64Range(0, 4*leadRate), func(d int64) int64 { return 9_223_372_036 - d }),
+		rapid.Map(rapid.Int64Range(0, 4*leadRate), func(d int64) int64 { return 18_446_744_073 - d }),
+		rapid.Map(rapid.Int64Range(0, 4*leadRate), func(d int64) int64 { return 1<<32 - 900_000 - d }),
 	).Draw(t, "start")
 	ntpBase := int64(1_577_836_800_000_000_000) + rapid.Int64Range(0, 86_400_000_000_000).Draw(t, "ntpBase")
 	cfg.NTPZoneMin = rapid.SampledFrom([]int{0, 0, 0, 120, -330, 345, -720, 840}).Draw(t, "ntpZone")
@@ -269,6 +275,7 @@ func DrawScript(t *rapid.T, p Profile) Script {
 			curSet := spec.Params
 			timingFlavor := spec.Codec == "h265" && spec.Params == 1
 			reorder := spec.Codec == "h264" && IsH264Reorder(spec.Params)
+			av1Delimiters := spec.Codec == "av1" && rapid.Bool().Draw(t, "av1Delimiters")
 			bDepth := int64(0)
 			if reorder {
 				bDepth = rapid.Int64Range(0, 2).Draw(t, "bFrames")
@@ -297,6 +304,10 @@ func DrawScript(t *rapid.T, p Profile) Script {
 				}
 				if first && midGOP && k >= 3 {
 					ra = true
+				}
+				if ra && p.OversizedRA && p.SmallMax && rapid.IntRange(0, 14).Draw(t, "oversizedRA") == 0 {
+					// a random access unit that cannot fit: rejected right where a segment would open
+					op.Size = int(cfg.SegmentMaxSize) + rapid.IntRange(1, 50).Draw(t, "oversize")
 				}
 				if ra {
 					op.Kind = KindRA
@@ -348,6 +359,9 @@ func DrawScript(t *rapid.T, p Profile) Script {
 					} else if spec.Codec == "h264" && !reorder && rapid.IntRange(0, 40).Draw(t, "sei") == 0 {
 						op.Kind = KindSEI
 					}
+				}
+				if spec.Codec == "av1" && av1Delimiters && rapid.IntRange(0, 2).Draw(t, "td") != 0 {
+					op.Tmpl = 1
 				}
 				if timingFlavor {
 					if op.Kind == KindRA {
